@@ -84,7 +84,19 @@ func vh_C10_L3_cwnd_laws() {
 	if a.minCwnd > floor {
 		floor = a.minCwnd
 	}
-	switch vPick(3) {
+	switch vPick(4) {
+	case 3: // a second T3 expiry in one back-off series, after fast recovery had reopened the window
+		a.t3RTX.start(1000)
+		vassert(vFireRtx(a, a.t3RTX), "T3 expires")
+		vassert(a.cwnd == floor, "first expiry: cwnd = 1 MTU")
+		chunks[0].missIndicator = 2
+		sack := &chunkSelectiveAck{cumulativeTSNAck: base, advertisedReceiverWindowCredit: 1 << 20, gapAckBlocks: []gapAckBlock{{2, 2}}}
+		vassert(vDeliver(a, sack) == nil, "SACK ok")
+		vassert(a.inFastRecovery && a.cwnd >= 4*mtu, "fast recovery entered without the ack point moving: cwnd = ssthresh >= 4 MTU")
+		vassert(vFireRtx(a, a.t3RTX), "T3 expires again (same series, not restarted)")
+		vassert(a.cwnd == floor, "every T3 expiry is a loss signal: cwnd = 1 MTU again")
+		vassert(!a.inFastRecovery, "T3 leaves fast recovery")
+		vcover("t3-twice")
 	case 0: // T3 expiry
 		a.t3RTX.start(1000)
 		vassert(vFireRtx(a, a.t3RTX), "T3 expires")
@@ -122,6 +134,10 @@ func vh_C10_L3_cwnd_laws() {
 		sack2 := &chunkSelectiveAck{cumulativeTSNAck: base, advertisedReceiverWindowCredit: 1 << 20, gapAckBlocks: []gapAckBlock{{2, 2}, {4, 4}}}
 		vassert(vDeliver(a, sack2) == nil, "SACK ok")
 		vassert(a.cwnd == want, "the window is cut once per recovery")
+		// the recovery ends when the cumulative ack reaches or passes its exit point
+		sack3 := &chunkSelectiveAck{cumulativeTSNAck: base + 4, advertisedReceiverWindowCredit: 1 << 20}
+		vassert(vDeliver(a, sack3) == nil, "SACK ok")
+		vassert(!a.inFastRecovery, "fast recovery ends once everything up to its exit point is acknowledged, also when the cumulative ack jumps past it")
 		vcover("fast-recovery")
 	case 2: // cumulative ack: growth only with pending data, bounded
 		pending := vPick(2) == 1
@@ -201,3 +217,23 @@ func vh_C10_L4_mtu_bound() {
 // establishment each side's rwnd is what the *peer* advertised (= C04.L1 snap / handshake).
 func vh_C10_L5_initial_peer_window_snap()      { vh_C04_L1_snap_tokens() }
 func vh_C10_L5_initial_peer_window_handshake() { vh_C04_L1_client_server() }
+
+// C10.L6: the count of bytes in flight is exact. Three chunks in flight; a SACK gap-acks the
+// second, a later SACK acknowledges the first two cumulatively (a chunk is first gap-acked,
+// then covered by the cumulative ack): after each, the counter the admission of new data
+// and the peer-window computation rely on equals the bytes of the chunks still outstanding.
+func vh_C10_L6_inflight_bytes_exact() {
+	vFlightSizes = []int{3, 5, 7}
+	f := vInFlight(3, false)
+	vFlightSizes = nil
+	a := f.a
+	vassert(a.inflightQueue.getNumBytes() == 15, "15 bytes in flight")
+	vassert(vDeliver(a, &chunkSelectiveAck{cumulativeTSNAck: f.base, advertisedReceiverWindowCredit: 1 << 20, gapAckBlocks: []gapAckBlock{{2, 2}}}) == nil, "SACK ok")
+	vassert(a.inflightQueue.getNumBytes() == 10, "a gap-acked chunk no longer counts as outstanding")
+	vassert(vDeliver(a, &chunkSelectiveAck{cumulativeTSNAck: f.base + 2, advertisedReceiverWindowCredit: 1 << 20}) == nil, "SACK ok")
+	vassert(a.inflightQueue.getNumBytes() == 7, "and is not subtracted a second time when the cumulative ack covers it")
+	vassert(a.inflightQueue.size() == 1, "one chunk left")
+	vassert(vDeliver(a, &chunkSelectiveAck{cumulativeTSNAck: f.base + 3, advertisedReceiverWindowCredit: 1 << 20}) == nil, "SACK ok")
+	vassert(a.inflightQueue.getNumBytes() == 0 && a.inflightQueue.size() == 0, "nothing in flight at the end")
+	vcover("end")
+}
